@@ -47,6 +47,18 @@ func c13Enum(i int) string {
 }
 
 func c13Random(r *rand.Rand) string {
+	if r.Intn(16) == 0 {
+		// long references whose canonical text is much longer than what was written (percent-encoding triples it)
+		unit := []string{"é ", "日本 ", "a b", "ü/"}[r.Intn(4)]
+		body := strings.Repeat(unit, 150+r.Intn(500))
+		switch r.Intn(3) {
+		case 0:
+			return "http://example.com/" + body + ".json#/definitions/x"
+		case 1:
+			return "#/definitions/" + body
+		}
+		return body + "/doc.json"
+	}
 	segs := []string{"a", "B", "é", "%C3%A9", "a%20b", "a b", "..", ".", "x.json", "~", "a%2Fb", "", "{id}", "a+b", "%7E", "%41", "%7e", "a:b"}
 	var sb strings.Builder
 	sb.WriteString(c13Schemes[r.Intn(len(c13Schemes))])
